@@ -74,3 +74,49 @@ ITEMS = [
                   ('non_sequences_are_type_errors', '!(P1 is Seq) ==> (r is Err && err_class(r->Err_0) == ErrClass::Type)')],
          props=P),
 ]
+
+FEW = 'src/few.rs'
+C = 'src/core.rs'
+ITEMS += [
+    # few.rs: argument-vector classifiers used by every hand-written Builtin::run
+    Item(id='Few', kind='type', source=FEW, locator='enum Few'),
+    Item(id='Few2', kind='type', source=FEW, locator='enum Few2'),
+    Item(id='few', source=FEW, locator='fn few',
+         ensures=[('classifies_by_length', 'match r { Few::Zero => xs@.len() == 0, Few::One(x) => xs@.len() == 1 && x == xs@[0], Few::Many(v) => xs@.len() >= 2 && v@ == xs@ }')],
+         props=P),
+    Item(id='few2', source=FEW, locator='fn few2',
+         ensures=[('classifies_by_length', 'match r { Few2::Zero => xs@.len() == 0, Few2::One(x) => xs@.len() == 1 && x == xs@[0], '
+                   'Few2::Two(x, y) => xs@.len() == 2 && x == xs@[0] && y == xs@[1], Few2::Many(v) => xs@.len() >= 3 && v@ == xs@ }')],
+         props=P),
+    # `first` / `last`: element 0 / -1 of the single sequence argument
+    Item(id='First', kind='type', source=L, locator='struct First'),
+    Item(id='Last', kind='type', source=L, locator='struct Last'),
+    Item(id='first_run', source=L, locator='impl Builtin for First / fn run', wrap='impl First',
+         requires=[('rust_allocation_limit', 'args@.len() == 1 && args@[0] is Seq ==> seq_len_fits_isize(args@[0]->Seq_0)')],
+         ensures=[(n, '(args@.len() == 1) ==> (%s)' % e.replace('P0', 'args@[0]')) for n, e in nth_like(0)] +
+                 [('exactly_one_argument', 'args@.len() != 1 ==> (r is Err && err_class(r->Err_0) == ErrClass::Type)')],
+         props=P),
+    Item(id='last_run', source=L, locator='impl Builtin for Last / fn run', wrap='impl Last',
+         requires=[('rust_allocation_limit', 'args@.len() == 1 && args@[0] is Seq ==> seq_len_fits_isize(args@[0]->Seq_0)')],
+         ensures=[(n, '(args@.len() == 1) ==> (%s)' % e.replace('P0', 'args@[0]')) for n, e in nth_like(-1)] +
+                 [('exactly_one_argument', 'args@.len() != 1 ==> (r is Err && err_class(r->Err_0) == ErrClass::Type)')],
+         props=P),
+    # core.rs: the Option -> NRes wrappers behind `take n` / `drop n` / window sizes / int() / float()
+    Item(id='to_usize_ok', source=C, locator='fn to_usize_ok',
+         ensures=[('ok_exactly_for_integers_in_range', 'match (match n@ { NumV::Int(i) => opt_in_range_usize(i), _ => None }) { Some(v) => r == Ok::<usize, NErr>(v), None => r is Err && err_class(r->Err_0) == ErrClass::Value }')],
+         props=P),
+    Item(id='clamp_to_usize_ok', source=C, locator='fn clamp_to_usize_ok',
+         ensures=[('negative_integers_clamp_to_zero', 'match n@ { NumV::Int(i) => (if i <= 0 { r == Ok::<usize, NErr>(0usize) } else { match opt_in_range_usize(i) { Some(v) => r == Ok::<usize, NErr>(v), None => r is Err && err_class(r->Err_0) == ErrClass::Value } }), '
+                   '_ => r is Err && err_class(r->Err_0) == ErrClass::Value }')],
+         props=P),
+    Item(id='obj_clamp_to_usize_ok', source=C, locator='fn obj_clamp_to_usize_ok',
+         ensures=[('numbers_go_through_clamp', 'match *n { Obj::Num(m) => (match m@ { NumV::Int(i) => (if i <= 0 { r == Ok::<usize, NErr>(0usize) } else { match opt_in_range_usize(i) { Some(v) => r == Ok::<usize, NErr>(v), None => r is Err } }), _ => r is Err }), '
+                   '_ => r is Err && err_class(r->Err_0) == ErrClass::Type }')],
+         props=P),
+    Item(id='into_nint_ok', source=C, locator='fn into_nint_ok',
+         ensures=[('ok_exactly_for_integers', 'match n@ { NumV::Int(i) => r is Ok && r->Ok_0@ == i, _ => r is Err && err_class(r->Err_0) == ErrClass::Value }')],
+         props=P + ['C16']),
+    Item(id='into_bigint_ok', source=C, locator='fn into_bigint_ok',
+         ensures=[('ok_exactly_for_integers', 'match n@ { NumV::Int(i) => r is Ok && r->Ok_0@ == i, _ => r is Err && err_class(r->Err_0) == ErrClass::Value }')],
+         props=P + ['C16']),
+]
